@@ -126,6 +126,7 @@ def main():
     ck.lean_obligations("CvProps.C17", THEOREMS)
     drv = ck.driver()
     cap = 20000 if not ck.thorough else 1500000
+    work = 30000 if not ck.thorough else 30000000
     files = sorted(glob.glob(os.path.join(REPO, "cayleypy", "data", "*.csv")))
     rows = []
     for f in files:
@@ -168,7 +169,7 @@ def main():
         if isinstance(r[0], str):
             ck.correspondence_break("model rejects a library definition", {"case": case, "model": r[0]})
             continue
-        line = drv.ask(f"spec.growth 1000000 {cap} ; {gd.pack(gd.central)}")
+        line = drv.ask(f"spec.growthw 1000000 {cap} {work} ; {gd.pack(gd.central)}")
         sizes_s, flag = [x.strip() for x in line.split(";")]
         ref = [int(x) for x in sizes_s.split()]
         ck.case(["row", name, key], len(stored) >= 3, sample={"dataset": name, "key": key, "stored": stored[:8], "reference": ref[:8], "reference_run": flag})
@@ -198,7 +199,7 @@ def main():
                 problems.append(f"sum {sum(stored)} is not the known order {known}")
         if problems:
             ck.violation(f"C17/{name}/{key}", f"dataset row {name}[{key}]: " + "; ".join(problems), {"case": case, "stored": stored, "reference": ref, "reference_run": flag, "known_order": known})
-    ck.extra.update({"rows": len(rows), "rows_exact": exact, "rows_prefix": prefix, "rows_sum_checked": summed, "vertex_budget_per_row": cap})
+    ck.extra.update({"rows": len(rows), "rows_exact": exact, "rows_prefix": prefix, "rows_sum_checked": summed, "vertex_budget_per_row": cap, "neighbour_computations_per_step_budget": work})
     ck.assumptions = [
         "the graph a key denotes is the one the library constructor builds (the constructors are the subject of C15)",
         "known orders: closed formulas (n!, 2^n n!, multinomials, m^(2n-3), |SL_n(Z/m)|) or Schreier-Sims by sympy in the tooling venv (independent oracle; rows without either get no sum check)",
